@@ -41,6 +41,7 @@ impl Default for History {
 
 static POLL_INTERVAL: AtomicU64 = AtomicU64::new(0);
 static ABORT_AT_NODE: AtomicU64 = AtomicU64::new(0);
+static STOP_AT_NODE: AtomicU64 = AtomicU64::new(0);
 static LAST_ABORT_NODE: AtomicU64 = AtomicU64::new(0);
 static LAST_ABORT_PLY: AtomicU64 = AtomicU64::new(0);
 static LAST_ABORT_ITERATION: AtomicU64 = AtomicU64::new(0);
@@ -51,6 +52,7 @@ fn read_env() {
         let get = |key: &str| std::env::var(key).ok().and_then(|v| v.trim().parse::<u64>().ok());
         if let Some(n) = get("INKAYAKU_VERIF_POLL") { POLL_INTERVAL.store(n, Ordering::SeqCst); }
         if let Some(n) = get("INKAYAKU_VERIF_ABORT_AT") { ABORT_AT_NODE.store(n, Ordering::SeqCst); }
+        if let Some(n) = get("INKAYAKU_VERIF_STOP_AT") { STOP_AT_NODE.store(n, Ordering::SeqCst); }
     });
 }
 
@@ -59,6 +61,10 @@ pub fn set_poll_interval(n: u64) { read_env(); POLL_INTERVAL.store(n, Ordering::
 
 /// Behave as if the move time expired at the poll performed at node counter `n` (0 = never).
 pub fn abort_at_node(n: u64) { read_env(); ABORT_AT_NODE.store(n, Ordering::SeqCst); }
+
+/// Behave as if a `stop` message was found in the mailbox at the poll performed at node counter `n`
+/// (0 = never): the stop flag is raised and the search carries on until it next looks at the flag.
+pub fn stop_at_node(n: u64) { read_env(); STOP_AT_NODE.store(n, Ordering::SeqCst); }
 
 pub(crate) fn should_check_flags(negamax_nodes: u64) -> Option<bool> {
     read_env();
@@ -70,6 +76,11 @@ pub(crate) fn should_check_flags(negamax_nodes: u64) -> Option<bool> {
 
 pub(crate) fn abort_armed_at(negamax_nodes: u64) -> bool {
     let n = ABORT_AT_NODE.load(Ordering::SeqCst);
+    n != 0 && negamax_nodes == n
+}
+
+pub(crate) fn stop_armed_at(negamax_nodes: u64) -> bool {
+    let n = STOP_AT_NODE.load(Ordering::SeqCst);
     n != 0 && negamax_nodes == n
 }
 
